@@ -128,6 +128,7 @@ pub fn describe_case(bytes: &[u8], uniform: bool) -> Value {
     let hd = decode_header(&h);
     json!({
         "min_align": hd.m,
+        "constructor_family": if hd.m == 1 && hd.ctor & 8 != 0 { "Bump::new / try_new / with_capacity / try_with_capacity (spelled below with their MIN_ALIGN-generic names)" } else { "generic" },
         "constructor": match (hd.ctor % 4, hd.ctor & 4 != 0) { (0, false) => "with_min_align".to_string(), (0, true) => "default".to_string(), (_, false) => format!("with_min_align_and_capacity({})", hd.cap), (_, true) => format!("try_with_min_align_and_capacity({})", hd.cap) },
         "placement": format!("{:?}", hd.placement),
         "fault_plan": format!("{:?}", hd.plan),
